@@ -3,6 +3,7 @@
 package interp
 
 import (
+	"crypto/md5"
 	"encoding/binary"
 	"encoding/hex"
 	"errors"
@@ -554,6 +555,16 @@ func (im *Impl) Exec(line string) (out []string) {
 		return im.dump()
 	case "dumprecs":
 		return im.dumpRecs()
+	case "segbytes":
+		var parts []string
+		for _, name := range im.FS.List(im.Dir) {
+			if isSegName(name) {
+				data, _ := im.FS.ReadFile(im.Dir + "/" + name)
+				parts = append(parts, fmt.Sprintf("%s:%d:%x", name, len(data), md5.Sum(data)))
+			}
+		}
+		sort.Strings(parts)
+		return []string{"segbytes " + strings.Join(parts, ",")}
 	case "checkinv":
 		return []string{"checkinv ok"}
 	case "dumpindex":
@@ -647,7 +658,10 @@ func (im *Impl) Exec(line string) (out []string) {
 		return []string{"loadseg ok"}
 	case "appendraw":
 		name := pogreb.VerifSegmentName(uint16(atoi(f[1])), uint64(atoi(f[2])))
-		data, _ := im.FS.ReadFile(im.Dir + "/" + name)
+		data, ok := im.FS.ReadFile(im.Dir + "/" + name)
+		if !ok {
+			return []string{"appendraw nofile"}
+		}
 		im.FS.WriteFile(im.Dir+"/"+name, append(data, Unhex(f[3])...))
 		return []string{"appendraw ok"}
 	case "setlock":
